@@ -689,6 +689,15 @@ MUTANTS = [
         auto constructed_object = new(allocated_object) Type(std::forward<Args>(args)...);
         guard.storage = nullptr;""",
         """        auto constructed_object = new(allocated_object) Type(std::forward<Args>(args)...);""")]),
+    dict(name='c03-final-sum-destroys-range-unconditionally', prop='C03', clause='D4', edits=[('include/oneapi/tbb/parallel_scan.h',
+        """        if (m_range_constructed) {
+            m_range.begin()->~Range();
+        }""",
+        """        m_range.begin()->~Range();""")]),
+    dict(name='c03-arena-function-result-flag-never-raised', prop='C03', clause='D4', edits=[('include/oneapi/tbb/task_arena.h',
+        """        my_constructed = true;
+        return std::move(*(my_return_storage.begin()));""",
+        """        return std::move(*(my_return_storage.begin()));""")]),
     dict(name='c01-seed3-run-and-wait-handle-epilogue-on-exception-only', prop='C01', clause='D9', edits=[('include/oneapi/tbb/task_group.h',
         """            execute_and_wait(*acs::release(h), context(), m_wait_vertex.get_context(), context());
         }).on_completion([&] {""",
@@ -1582,6 +1591,7 @@ BENIGN = [
     }
 
     template <typename Type>""")]),
+    dict(name='c03-b-final-sum-range-flag-renamed', prop='C03', edits=[('re', 'include/oneapi/tbb/parallel_scan.h', r'\bm_range_constructed\b', 'm_has_range')]),
     dict(name='c01-b-group-wait-epilogue-in-a-named-lambda', prop='C01', edits=[('include/oneapi/tbb/task_group.h',
         """        try_call([&] {
             d1::wait(m_wait_vertex.get_context(), context());
